@@ -19,6 +19,16 @@ SIGS_A = ("early-callback", "failed-callback")
 SIGS_B = ("early-callback", "failed-callback")
 
 CORPUS_A = [
+    # every option form of a one-to-one node forwards the element's metadata: unique(hashable=False) with and without key / maxsize,
+    # a metadata list whose first entry carries no counter
+    {"mode": "async", "flavour": "future", "nodes": [{"kind": "source", "ups": []}, {"kind": "unique", "ups": [0], "maxsize": None, "key": ["id"], "hashable": False},
+                                                      {"kind": "sink", "mode": "async", "ups": [1]}],
+     "ops": [{"op": "emit", "node": 0, "val": 1, "md": [{"tag": 1, "ref": 1}]}, {"op": "emit", "node": 0, "val": 2, "md": [{"tag": 2, "ref": None}, {"tag": 3, "ref": 2}]},
+             {"op": "sinkdone", "tok": 0}, {"op": "sinkdone", "tok": 1}]},
+    {"mode": "async", "flavour": "coro", "nodes": [{"kind": "source", "ups": []}, {"kind": "unique", "ups": [0], "maxsize": 2, "key": ["modk", 3], "hashable": False},
+                                                    {"kind": "sliding_window", "ups": [1], "n": 2, "partial": True}, {"kind": "sink", "mode": "async", "ups": [2]}],
+     "ops": [{"op": "emit", "node": 0, "val": 1, "md": [{"tag": 1, "ref": None}, {"tag": 2, "ref": 1}]}, {"op": "emit", "node": 0, "val": 2, "md": [{"tag": 3, "ref": 2}]},
+             {"op": "sinkdone", "tok": 0}, {"op": "sinkdone", "tok": 1}]},
     {"mode": "async", "flavour": "coro", "nodes": [{"kind": "source", "ups": []}, {"kind": "sink", "mode": "async", "ups": [0]}],
      "ops": [{"op": "emit", "node": 0, "val": 1, "md": [{"tag": 1, "ref": 1}]}, {"op": "sinkdone", "tok": 0}]},
 ]
